@@ -88,6 +88,56 @@ def _val(v):
         return repr(v)
 
 
+_MUTATORS = {'append', 'pop', 'extend', 'insert', 'remove', 'clear', 'update', 'setdefault', 'add', 'discard', 'popitem', 'sort', 'reverse',
+             '__setitem__', '__delitem__', '__iadd__', '__ior__'}
+
+
+class MutProxy:
+    """a mutable container (list/dict/set) found in a wrapped cell: every method call on it is an event on that cell -
+    mutators are writes (value = content afterwards), everything else is a read of the current content"""
+
+    def __init__(self, cell, target):
+        object.__setattr__(self, '_c', cell)
+        object.__setattr__(self, '_t', target)
+
+    def _call(self, name, *a, **kw):
+        t = object.__getattribute__(self, '_t')
+        cell = object.__getattribute__(self, '_c')
+        if name in _MUTATORS:
+            S.point('W', cell, 'mutating:' + name)       # scheduling point before the mutation
+            r = getattr(t, name)(*a, **kw)
+            ev = S.ev.get(S.name())
+            if S.mode == 'record' and ev:
+                ev[-1] = ('W', cell, repr(t))             # recorded value = content after the write
+            return r
+        S.point('R', cell, repr(t))
+        return getattr(t, name)(*a, **kw)
+
+    def __getattr__(self, name):
+        return lambda *a, **kw: self._call(name, *a, **kw)
+
+    def __iter__(self):
+        return self._call('__iter__')
+
+    def __len__(self):
+        return self._call('__len__')
+
+    def __bool__(self):
+        return bool(self._call('__len__'))
+
+    def __getitem__(self, k):
+        return self._call('__getitem__', k)
+
+    def __setitem__(self, k, v):
+        return self._call('__setitem__', k, v)
+
+    def __delitem__(self, k):
+        return self._call('__delitem__', k)
+
+    def __contains__(self, k):
+        return self._call('__contains__', k)
+
+
 class Proxy:
     """records attribute reads/writes on the wrapped object"""
 
@@ -98,7 +148,15 @@ class Proxy:
     def _cell(self, a):
         t = object.__getattribute__(self, '_t')
         n = object.__getattribute__(self, '_n')
-        return (n, a, S.name() if isinstance(t, threading.local) else '*')
+        private = False
+        if isinstance(t, threading.local):
+            # only what lives in the per-thread dict is thread-private; class attributes of a threading.local
+            # subclass (e.g. a mutable default) are shared by all threads
+            try:
+                private = a in object.__getattribute__(t, '__dict__') or not hasattr(type(t), a)
+            except AttributeError:
+                private = True
+        return (n, a, S.name() if private else '*')
 
     def __getattr__(self, a):
         t = object.__getattribute__(self, '_t')
@@ -108,6 +166,14 @@ class Proxy:
         except AttributeError:
             S.point('R', cell, '<missing>')
             return getattr(t, a)
+        if isinstance(v, (list, dict, set)):
+            return MutProxy(cell, v)
+        if callable(v) and not isinstance(v, type):
+            # a method of the holder object: run it with the proxy as `self`, so that its own accesses are recorded
+            import types
+            if isinstance(v, types.MethodType) and v.__self__ is t:
+                return types.MethodType(v.__func__, self)
+            return v
         S.point('R', cell, _val(v))
         return getattr(t, a)      # re-read after having been scheduled
 
